@@ -421,7 +421,7 @@ def r6_group_and_merge(ctx):
     prog = ctx.prog
     f = prog.find_func("merge_ballots")
     bl = f.params[0]
-    defs = {astx.u(n.targets[0]): n.value for n in astx.walk_own(f.node) if isinstance(n, ast.Assign) and isinstance(n.targets[0], ast.Name)}
+    defs = astx.single_assignments(f.node, names_only=True, text=False)
     rets = [n for n in astx.walk_own(f.node) if isinstance(n, ast.Return)]
     kw = {k.arg: astx.u(k.value) for k in rets[0].value.keywords} if rets and isinstance(rets[0].value, ast.Call) else {}
     good = astx.u(defs.get("ranking")) == f"{bl}[0].ranking" and kw.get("ranking") == "ranking" and kw.get("weight") in ("Fraction(weight)", "weight") \
